@@ -212,7 +212,7 @@ def run_unit(unit, st, tier):
                 break
         if len(seen) > n:
             # the rotation group of a record of length n has at most n elements: the search would not close
-            st.violation("rotate", "more-reachable-states-than-rotations", dict(n=n, table_slice=[s, nsl], history=[], op=">>", k=1),
+            st.violation("rotate", "more-reachable-states-than-rotations", dict(n=n, table_slice=[s, nsl], history=[], op="closure", k=0),
                          "<= %d states" % n, len(seen))
             st.caps.append("n={}: search stopped at {} states (> n)".format(n, len(seen)))
             break
@@ -228,6 +228,9 @@ def run_unit(unit, st, tier):
 def replay(scn, sub, st):
     n = scn["n"]
     s, nsl = scn["table_slice"]
+    if scn["op"] == "closure":
+        run_unit((n, s, nsl), st, "quick")     # the whole search of this graph is the scenario
+        return
     init = initial(n, s, nsl)
     rec = build(init)
     r = 0
